@@ -21,7 +21,7 @@ Definition kind_of_dkind (k : dkind) : C11_Spec.kind :=
   match k with DFull => C11_Spec.KFull | DSuffix => C11_Spec.KSuffix | DKeyword => C11_Spec.KKeyword | DRegex => C11_Spec.KRegex end.
 
 Lemma domain_holds_s : forall k s d hits,
-  C07_Spec.domain_holds k s d hits = s_domain_holds (kind_of_dkind k) s d hits.
+  C07_Spec.domain_holds k s d hits = s_domain_holds_rx (kind_of_dkind k) s d hits.
 Proof. intros [] s d hits; reflexivity. Qed.
 
 Definition pset_of (ds : domset) : pset := (ds_index ds, kind_of_dkind (ds_key ds), map bytes (ds_domains ds)).
@@ -180,12 +180,22 @@ Definition c07_regex_oracles_agree (b : builder) (rx : str -> str -> bool) (q : 
   forall ds s, In ds (b_domsets b) -> ds_key ds = DRegex -> In s (ds_domains ds) ->
     existsb (String.eqb s) (q_regex_hits q) = rx (bytes s) (bytes (norm_name (q_name q))).
 
+(* no EMPTY full / suffix / keyword pattern.  Needed for the root question "." only: MatchDomainBitmap then runs on
+   the empty name, which C11 (and the Go code) let `full: ""` and `suffix: ""` match, while C07_Spec guards these
+   kinds against the empty name (residual mismatch, Link_C07_C11_root_empty_pattern_mismatch) *)
+Definition c07_no_empty_pattern (b : builder) : bool :=
+  forallb (fun ds => match ds_key ds with
+                     | DRegex => true
+                     | _ => forallb (fun s => negb (String.eqb s "")) (ds_domains ds)
+                     end) (b_domsets b).
+
 (* all the premises one matcher (request or response side) needs *)
 Record c07_side_ok (b : builder) (rx_ok : str -> bool) (rx : str -> str -> bool) (q : question) : Prop := {
   so_kw : kw_nonempty (c07_sets b) = true;        (* no empty keyword (open finding C11/keyword-empty) *)
   so_size : sets_size_ok (c07_sets b);            (* key bytes per index < 2^63 *)
   so_rx : sets_ok rx_ok (c07_sets b) = true;      (* every regexp compiles *)
   so_idx : c07_idx_ok b = true;                   (* domain sets below bit 1024 *)
+  so_root : q_name q = "."%string -> c07_no_empty_pattern b = true;   (* root question: no empty pattern *)
   so_oracle : c07_regex_oracles_agree b rx q }.
 
 (* reqMatcher/respMatcher.domainMatcher.MatchDomainBitmap(qName) *)
@@ -197,10 +207,10 @@ Lemma c07_oracle_discharged : forall b q rx_ok rx m,
   dinv b -> c07_side_ok b rx_ok rx q ->
   c11_build rx_ok (c07_sets b) = Some m ->
   name_ok (bytes (q_name q)) = true ->
-  norm_name (q_name q) <> ""%string ->
+  q_name q <> ""%string ->
   C07_domain_oracle_agrees b (c07_bm rx m q) q.
 Proof.
-  intros b q rx_ok rx m Hd [Hk Hs Ho Hidx Hrx] Hb Hn Hne ds Hin.
+  intros b q rx_ok rx m Hd [Hk Hs Ho Hidx Hroot Hrx] Hb Hn Hne ds Hin.
   destruct (c11_build_bit rx_ok rx (c07_sets b) Hk Hs Ho) as [m' [Hb' Hbit]].
   rewrite Hb in Hb'. inversion Hb'; subst m'. clear Hb'.
   assert (Hlt : ds_index ds < c11_nbits).
@@ -215,33 +225,58 @@ Proof.
   rewrite <- bytes_norm_name.
   rewrite existsb_map_c. apply existsb_ext_in. intros s Hs'.
   rewrite domain_holds_s. symmetry.
-  apply s_domain_holds_pat_matches; [exact Hne | rewrite bytes_norm_name; now apply normalize_pat_ok |].
-  intro Hk'. apply (Hrx ds s Hin); [|exact Hs']. destruct (ds_key ds); try discriminate Hk'. reflexivity.
+  apply s_domain_holds_rx_pat_matches; [rewrite bytes_norm_name; now apply normalize_pat_ok | |].
+  - (* the normalised name is empty: the question is the root, and no pattern of these kinds is empty *)
+    intros He Hk' ->. destruct (norm_name_empty _ He) as [E|E]; [contradiction|].
+    specialize (Hroot E). unfold c07_no_empty_pattern in Hroot. rewrite forallb_forall in Hroot. specialize (Hroot ds Hin).
+    destruct (ds_key ds); try (now apply Hk');
+      (rewrite forallb_forall in Hroot; specialize (Hroot _ Hs'); discriminate Hroot).
+  - intro Hk'. apply (Hrx ds s Hin); [|exact Hs']. destruct (ds_key ds); try discriminate Hk'. reflexivity.
 Qed.
 
-Lemma norm_nonempty : forall s, s <> ""%string -> s <> "."%string -> norm_name s <> ""%string.
-Proof. intros s H1 H2 H. destruct (norm_name_empty s H); contradiction. Qed.
+Lemma dns_new_raw_dinv rc d : dns_new_raw rc = Ok d -> dinv (d_req d) /\ dinv (d_resp d).
+Proof.
+  unfold dns_new_raw. destruct (_ <? _); [discriminate|].
+  destruct (split_request_rules (rc_request rc)) as [sp|]; [|discriminate]. apply dns_new_dinv.
+Qed.
 
 (* ---------- the composed theorems ---------- *)
-(* REQUEST ROUTING = FIRST MATCH with the real matcher.  Any name (any case, trailing dot, also the empty name)
-   except the root name "." *)
+(* REQUEST ROUTING = FIRST MATCH with the real matcher.  Any name: any case, trailing dot, the root name ".", also a
+   message without question name *)
 Theorem Link_request_with_real_domain_matcher :
   forall (cfg : config) (d : dns) (q : question) (rx_ok : str -> bool) (rx : str -> str -> bool),
     wf_config cfg = true -> dns_new cfg = Ok d ->
     c07_side_ok (d_req d) rx_ok rx q ->
     name_ok (bytes (q_name q)) = true ->
-    q_name q <> "."%string ->                      (* see the MISMATCH below *)
+    (q_name q = ""%string -> q_regex_hits q = []) ->     (* C07's own: no name, no regex hits *)
     exists m, c11_build rx_ok (c07_sets (d_req d)) = Some m /\
       exists v, request_route cfg q = Some v /\ request_select d (c07_bm rx m q) q = Ok v.
 Proof.
-  intros cfg d q rx_ok rx Hwf Hnew Hside Hn Hroot.
+  intros cfg d q rx_ok rx Hwf Hnew Hside Hn Hhits.
   destruct (c11_build_bit rx_ok rx _ (so_kw _ _ _ _ Hside) (so_size _ _ _ _ Hside) (so_rx _ _ _ _ Hside)) as [m [Hb _]].
   exists m. split; [exact Hb|].
-  apply (C07_request_first_match cfg d _ q Hwf Hnew). intro Hne.
-  apply (c07_oracle_discharged _ q rx_ok rx m (proj1 (dns_new_dinv cfg d Hnew)) Hside Hb Hn).
-  now apply norm_nonempty.
+  apply (C07_request_first_match cfg d _ q Hwf Hnew Hhits). intro Hne.
+  exact (c07_oracle_discharged _ q rx_ok rx m (proj1 (dns_new_dinv cfg d Hnew)) Hside Hb Hn Hne).
 Qed.
 Print Assumptions Link_request_with_real_domain_matcher.
+
+(* the same on the request list AS WRITTEN (with the internal sub / node / subnode selector rules split off) *)
+Theorem Link_request_raw_with_real_domain_matcher :
+  forall (rc : rconfig) (d : dns) (q : question) (rx_ok : str -> bool) (rx : str -> str -> bool),
+    wf_rconfig rc = true -> dns_new_raw rc = Ok d ->
+    c07_side_ok (d_req d) rx_ok rx q ->
+    name_ok (bytes (q_name q)) = true ->
+    (q_name q = ""%string -> q_regex_hits q = []) ->
+    exists m, c11_build rx_ok (c07_sets (d_req d)) = Some m /\
+      exists v, request_route_raw rc q = Some v /\ request_select d (c07_bm rx m q) q = Ok v.
+Proof.
+  intros rc d q rx_ok rx Hwf Hnew Hside Hn Hhits.
+  destruct (c11_build_bit rx_ok rx _ (so_kw _ _ _ _ Hside) (so_size _ _ _ _ Hside) (so_rx _ _ _ _ Hside)) as [m [Hb _]].
+  exists m. split; [exact Hb|].
+  apply (C07_request_first_match_raw rc d _ q Hwf Hnew Hhits). intro Hne.
+  exact (c07_oracle_discharged _ q rx_ok rx m (proj1 (dns_new_raw_dinv rc d Hnew)) Hside Hb Hn Hne).
+Qed.
+Print Assumptions Link_request_raw_with_real_domain_matcher.
 
 (* RESPONSE ROUTING = FIRST MATCH with the real matcher *)
 Theorem Link_response_with_real_domain_matcher :
@@ -249,16 +284,15 @@ Theorem Link_response_with_real_domain_matcher :
     wf_config cfg = true -> dns_new cfg = Ok d ->
     c07_side_ok (d_resp d) rx_ok rx q ->
     name_ok (bytes (q_name q)) = true ->
-    q_name q <> ""%string -> q_name q <> "."%string ->
+    q_name q <> ""%string ->
     exists m, c11_build rx_ok (c07_sets (d_resp d)) = Some m /\
       exists v, response_route cfg q ans from = Some v /\ response_select d (c07_bm rx m q) q ans from = Ok v.
 Proof.
-  intros cfg d q ans from rx_ok rx Hwf Hnew Hside Hn Hne Hroot.
+  intros cfg d q ans from rx_ok rx Hwf Hnew Hside Hn Hne.
   destruct (c11_build_bit rx_ok rx _ (so_kw _ _ _ _ Hside) (so_size _ _ _ _ Hside) (so_rx _ _ _ _ Hside)) as [m [Hb _]].
   exists m. split; [exact Hb|].
   apply (C07_response_first_match cfg d _ q ans from Hwf Hnew Hne).
-  apply (c07_oracle_discharged _ q rx_ok rx m (proj2 (dns_new_dinv cfg d Hnew)) Hside Hb Hn).
-  now apply norm_nonempty.
+  exact (c07_oracle_discharged _ q rx_ok rx m (proj2 (dns_new_dinv cfg d Hnew)) Hside Hb Hn Hne).
 Qed.
 Print Assumptions Link_response_with_real_domain_matcher.
 
@@ -270,24 +304,24 @@ Theorem Link_answer_with_real_domain_matcher :
     wf_config cfg = true -> dns_new cfg = Ok d ->
     c07_side_ok (d_req d) rx_ok rx q -> c07_side_ok (d_resp d) rx_ok rx q ->
     name_ok (bytes (q_name q)) = true ->
-    q_name q <> ""%string -> q_name q <> "."%string ->
+    q_name q <> ""%string ->
     (N.to_nat MaxDnsLookupDepth < fuel)%nat ->
     exists mq mr, c11_build rx_ok (c07_sets (d_req d)) = Some mq /\ c11_build rx_ok (c07_sets (d_resp d)) = Some mr /\
       handle fuel d (c07_bm rx mq q) (c07_bm rx mr q) c q a
       = (let '(o, l, c') := answer_question (N.to_nat MaxDnsLookupDepth) cfg c q a in (res_of_outcome o, l, c')).
 Proof.
-  intros cfg d c q a fuel rx_ok rx Hwf Hnew Hsq Hsr Hn Hne Hroot Hfuel.
+  intros cfg d c q a fuel rx_ok rx Hwf Hnew Hsq Hsr Hn Hne Hfuel.
   destruct (c11_build_bit rx_ok rx _ (so_kw _ _ _ _ Hsq) (so_size _ _ _ _ Hsq) (so_rx _ _ _ _ Hsq)) as [mq [Hbq _]].
   destruct (c11_build_bit rx_ok rx _ (so_kw _ _ _ _ Hsr) (so_size _ _ _ _ Hsr) (so_rx _ _ _ _ Hsr)) as [mr [Hbr _]].
   exists mq, mr. split; [exact Hbq|]. split; [exact Hbr|].
-  pose proof (norm_nonempty _ Hne Hroot) as Hnn. destruct (dns_new_dinv cfg d Hnew) as [Dq Dr].
+  destruct (dns_new_dinv cfg d Hnew) as [Dq Dr].
   apply (C07_answer_refines cfg d _ _ c q a fuel Hwf Hnew Hne); [| |exact Hfuel].
-  - exact (c07_oracle_discharged _ q rx_ok rx mq Dq Hsq Hbq Hn Hnn).
-  - exact (c07_oracle_discharged _ q rx_ok rx mr Dr Hsr Hbr Hn Hnn).
+  - exact (c07_oracle_discharged _ q rx_ok rx mq Dq Hsq Hbq Hn Hne).
+  - exact (c07_oracle_discharged _ q rx_ok rx mr Dr Hsr Hbr Hn Hne).
 Qed.
 Print Assumptions Link_answer_with_real_domain_matcher.
 
-(* ---------- non-vacuity and the mismatch, on concrete sections ---------- *)
+(* ---------- non-vacuity, the root question, and the residual mismatch, on concrete sections ---------- *)
 Lemma with_build : forall rx_ok sets (P : C11_Model.matcher ptrie -> Prop),
   match c11_build rx_ok sets with Some m => P m | None => False end ->
   exists m, c11_build rx_ok sets = Some m /\ P m.
@@ -322,20 +356,16 @@ Example Link_C07_C11_nonvacuous :
       request_select d (c07_bm lk_rx0 m (ex_q 1)) (ex_q 1) = Ok (QUp 1).
 Proof.
   eexists. split; [vm_compute; reflexivity|].
-  split; [constructor; [lk_c | lk_size | lk_c | lk_c | lk_norx]|].
-  split; [constructor; [lk_c | intro j; vm_compute; reflexivity | lk_c | lk_c | lk_norx]|].
+  split; [constructor; [lk_c | lk_size | lk_c | lk_c | discriminate | lk_norx]|].
+  split; [constructor; [lk_c | intro j; vm_compute; reflexivity | lk_c | lk_c | discriminate | lk_norx]|].
   split; [lk_c|]. split; [discriminate|]. split; [discriminate|]. split; [lk_c|].
   apply with_build. lk_c.
 Qed.
 
-(* MISMATCH between the two specs (finding).  C07_Spec.domain_holds starts with `negb (d = "")`: for the
-   normalised name "" NO pattern holds.  The request matcher skips the bitmap only when the RAW name is empty; for
-   the root name "." MatchDomainBitmap runs on "" and C11 (spec, model, Go) answer as the kinds describe: a
-   regexp that matches the empty string (e.g. `.*`, a catch-all), `full: ""` and `suffix: ""` DO match.  So for
-   the question "." the real pipeline and C07's request_route differ, and C07_request_first_match is silent there
-   (its oracle hypothesis cannot be met by the real matcher).  Witness: request rule `qname(regex: ".*") -> reject`,
-   fallback asis, question "." (regexp oracle: ".*" matches ""): every premise of the composed theorem except
-   `q_name q <> "."` holds; request_route says asis, the pipeline rejects. *)
+(* REPAIRED MISMATCH (was Link_C07_C11_root_name_mismatch).  C07_Spec.domain_holds used to guard every kind against
+   the empty normalised name; it no longer guards regexps.  The former witness — request rule
+   `qname(regex: ".*") -> reject`, fallback asis, the root question "." (regexp oracle: ".*" matches "") — now
+   satisfies every premise of the composed theorem, and request_route and the pipeline agree on reject. *)
 Definition root_cfg : config :=
   {| cf_upstreams := [];
      cf_request := {| rt_rules := [ {| r_conds := [ {| c_neg := false; c_body := BQName [(DRegex, ".*"%string)] |} ];
@@ -345,33 +375,67 @@ Definition root_cfg : config :=
 Definition root_q : question := {| q_name := "."; q_type := 1; q_regex_hits := [".*"%string] |}.
 Definition root_rx : str -> str -> bool := fun pat _ => str_eqb pat (bytes ".*").
 
-Theorem Link_C07_C11_root_name_mismatch :
+Theorem Link_C07_C11_root_name_agrees :
   wf_config root_cfg = true /\
   exists d, dns_new root_cfg = Ok d /\
     c07_side_ok (d_req d) lk_rx_ok root_rx root_q /\
     name_ok (bytes (q_name root_q)) = true /\ q_name root_q = "."%string /\
-    request_route root_cfg root_q = Some QAsIs /\
+    (q_name root_q = ""%string -> q_regex_hits root_q = []) /\
+    request_route root_cfg root_q = Some QReject /\
     exists m, c11_build lk_rx_ok (c07_sets (d_req d)) = Some m /\
       request_select d (c07_bm root_rx m root_q) root_q = Ok QReject.
 Proof.
   split; [lk_c|]. eexists. split; [vm_compute; reflexivity|].
   split.
-  { constructor; [lk_c | lk_size | lk_c | lk_c |].
+  { constructor; [lk_c | lk_size | lk_c | lk_c | intros _; lk_c |].
     intros ds s Hin Hk Hs. vm_compute in Hin. destruct Hin as [<-|[]]. cbn in Hs. destruct Hs as [<-|[]]. lk_c. }
-  split; [lk_c|]. split; [reflexivity|]. split; [lk_c|].
+  split; [lk_c|]. split; [reflexivity|]. split; [discriminate|]. split; [lk_c|].
   apply with_build. lk_c.
 Qed.
-Print Assumptions Link_C07_C11_root_name_mismatch.
+Print Assumptions Link_C07_C11_root_name_agrees.
+
+(* RESIDUAL MISMATCH (finding, narrower than the repaired one).  For the root question the matcher runs on the empty
+   name, and C11 (spec, model, Go: the key "^$" / the keys "." and "^") lets the EMPTY pattern of kind full or suffix
+   match it, while C07_Spec guards full / suffix / keyword against the empty name.  Witness: request rule
+   `qname(full: "") -> reject`, fallback asis, question ".": every premise except so_root (no empty pattern) holds;
+   request_route says asis, the pipeline rejects.  (C01 has the same corner: Link_C01_C11_root_name_needed.) *)
+Definition root_cfg_empty_full : config :=
+  {| cf_upstreams := [];
+     cf_request := {| rt_rules := [ {| r_conds := [ {| c_neg := false; c_body := BQName [(DFull, ""%string)] |} ];
+                                       r_target := "reject" |} ];
+                      rt_fallback := "asis" |};
+     cf_response := {| rt_rules := []; rt_fallback := "accept" |} |}.
+Definition root_q0 : question := {| q_name := "."; q_type := 1; q_regex_hits := [] |}.
+
+Theorem Link_C07_C11_root_empty_pattern_mismatch :
+  wf_config root_cfg_empty_full = true /\
+  exists d, dns_new root_cfg_empty_full = Ok d /\
+    kw_nonempty (c07_sets (d_req d)) = true /\ sets_size_ok (c07_sets (d_req d)) /\
+    sets_ok lk_rx_ok (c07_sets (d_req d)) = true /\ c07_idx_ok (d_req d) = true /\
+    c07_regex_oracles_agree (d_req d) lk_rx0 root_q0 /\
+    c07_no_empty_pattern (d_req d) = false /\
+    name_ok (bytes (q_name root_q0)) = true /\
+    request_route root_cfg_empty_full root_q0 = Some QAsIs /\
+    exists m, c11_build lk_rx_ok (c07_sets (d_req d)) = Some m /\
+      request_select d (c07_bm lk_rx0 m root_q0) root_q0 = Ok QReject.
+Proof.
+  split; [lk_c|]. eexists. split; [vm_compute; reflexivity|].
+  split; [lk_c|]. split; [lk_size|]. split; [lk_c|]. split; [lk_c|]. split; [lk_norx|].
+  split; [lk_c|]. split; [lk_c|]. split; [lk_c|].
+  apply with_build. lk_c.
+Qed.
+Print Assumptions Link_C07_C11_root_empty_pattern_mismatch.
 
 (* DISCHARGED: C07_domain_oracle_agrees for the request and for the response matcher (the C11 interface hypothesis
-     of C07_request_first_match, C07_response_first_match, C07_answer_refines), from C11_matcher_packed_partial +
-     the fresh-index invariant of the two builders (build_matcher_dinv, proved here) + the adapters of
-     Link_DomainAdapter.v + bytes_norm_name (norm_name = C11's normalize: any case, trailing dot).
+     of C07_request_first_match, C07_request_first_match_raw, C07_response_first_match, C07_answer_refines), from
+     C11_matcher_packed_partial + the fresh-index invariant of the two builders (build_matcher_dinv, proved here) +
+     the adapters of Link_DomainAdapter.v + bytes_norm_name (norm_name = C11's normalize: any case, trailing dot).
    REMAINING (record c07_side_ok and the theorem premises):
      - C11's side conditions: kw_nonempty, sets_size_ok, sets_ok (regexps compile), name_ok of the question name;
      - c07_idx_ok: domain sets below bit 1024 (implied by <= MaxMatchSetLen match-sets, c07_idx_ok_of_rule_count;
        the Go builders check this, C07's build_matcher does not model the check);
-     - q_name q <> ".": the root name (MISMATCH of the two specs, witnessed above);
-     - c07_regex_oracles_agree: q_regex_hits (C07) and rx (C11) are answers of the same regexp engine.
-   The composed statements hold for the empty name too (request side), as C07's do.
+     - so_root: for the root question ".", no EMPTY full / suffix / keyword pattern in the rules (residual mismatch);
+     - c07_regex_oracles_agree: q_regex_hits (C07) and rx (C11) are answers of the same regexp engine;
+     - C07's own `q_name q = "" -> q_regex_hits q = []` on the request side.
+   The composed statements hold for the root name and (request side) for a message without name, as C07's do.
    The CIDR trie behind ip() response rules is still C07's direct model (px_covers). *)
